@@ -175,11 +175,16 @@ Qed.
 (* ---------------------------------------------------------------------------------------------- *)
 (* one dimension of a looked-up point *)
 
-(* The interval finally used by the recurrence has positive width. The lookup guarantees this everywhere
-   except exactly at x = knots[naxes] when knots[naxes-1] = knots[naxes] (a repeated knot at the upper end of
-   the fully supported range), where the code divides 0 by 0 — recorded as a known finding (D17). *)
+(* The interval finally used by the recurrence has positive width. The lookup guarantees this everywhere (at
+   x = knots[naxes] on a repeated knot it steps down to the nearest span of positive width — fix of D17) unless the
+   fully supported range itself is degenerate: knots[order] = ... = knots[naxes] = x. [eval_regular] excludes exactly
+   that; it follows from knots[order] < knots[naxes] ([full_support_nonempty], a condition on the table alone). *)
 Definition eval_regular (d : @dimn A) (x : K) : Prop :=
-  le (d_kn d (d_naxes d)) x -> lt (d_kn d (d_naxes d - 1)) x.
+  le (d_kn d (d_naxes d)) x -> lt (d_kn d (Z.of_nat (d_order d))) x.
+Definition full_support_nonempty (d : @dimn A) : Prop :=
+  lt (d_kn d (Z.of_nat (d_order d))) (d_kn d (d_naxes d)).
+Lemma nonempty_regular (d : @dimn A) (x : K) : full_support_nonempty d -> eval_regular d x.
+Proof. intros H Hx. eapply (lt_le_trans F); [exact H|exact Hx]. Qed.
 
 (* what the lookup's postcondition gives the margin walk *)
 Lemma lookup_walk_post (d : @dimn A) (x : K) (c : Z) :
@@ -204,13 +209,19 @@ Proof.
   - assert (L1 : le (kn (Z.of_nat n)) x) by (apply (nlt_le F); exact E1).
     destruct (leb (kn na) x) eqn:E2.
     + (* upper end and right margin *)
-      specialize (P4 eq_refl).
+      destruct (P4 eq_refl) as [Q1 [Q2 Q3]].
       replace (ltb x (kn na)) with false by (symmetry; apply (le_not_lt F); exact E2).
-      assert (Hc : c = nk - Z.of_nat n - 2) by lia. rewrite Hc.
-      apply (adjust_upper F kn nk n ltac:(lia) x).
-      * replace (nk - Z.of_nat n - 2 + 1) with na by lia. exact E2.
-      * exact R2.
-      * replace (nk - Z.of_nat n - 2) with (na - 1) by lia. apply Hreg. exact E2.
+      assert (Hcx : lt (kn c) x).
+      { destruct Q3 as [Q3|Q3]; [rewrite Q3; apply Hreg; exact E2|exact Q3]. }
+      destruct (Z.eq_dec c (na - 1)) as [Hc1|Hc1].
+      * assert (Hc : c = nk - Z.of_nat n - 2) by lia. rewrite Hc.
+        apply (adjust_upper F kn nk n ltac:(lia) x).
+        -- replace (nk - Z.of_nat n - 2 + 1) with na by lia. exact E2.
+        -- exact R2.
+        -- rewrite <- Hc. exact Hcx.
+      * (* stepped down over zero-width spans: kn c < x = kn (c+1) *)
+        apply (adjust_interior_left F kn nk n x c); [lia|]. split; [exact Hcx|].
+        exact (proj1 (Q2 (c + 1) ltac:(lia))).
     + (* fully supported interior *)
       assert (L2 : lt x (kn na)) by (apply (nle_lt F); exact E2).
       destruct (P2 L1 L2) as [Q1 Q2]. replace (ltb x (kn na)) with true by (symmetry; exact L2).
@@ -298,10 +309,12 @@ Proof.
   destruct Hp as [P1 [P2 [P3 P4]]].
   apply (adjust_left_stays F); [lia| |].
   - destruct (leb (d_kn d (d_naxes d)) x) eqn:E.
-    + specialize (P4 eq_refl). subst c. eapply (le_trans F); [|exact E]. apply Hmono; lia.
+    + destruct (P4 eq_refl) as [Q1 _]. eapply (le_trans F); [|exact E]. apply Hmono; lia.
     + apply (nle_lt F) in E. exact (proj1 (P2 S1 E)).
   - destruct (leb (d_kn d (d_naxes d)) x) eqn:E.
-    + specialize (P4 eq_refl). subst c. replace (d_naxes d - 1 + 1) with (d_naxes d) by lia. exact S2.
+    + destruct (P4 eq_refl) as [Q1 [Q2 _]]. destruct (Z.eq_dec c (d_naxes d - 1)) as [->|Hne].
+      * replace (d_naxes d - 1 + 1) with (d_naxes d) by lia. exact S2.
+      * exact (proj1 (Q2 (c + 1) ltac:(lia))).
     + apply (nle_lt F) in E. apply (lt_le F). exact (proj2 (P2 S1 E)).
 Qed.
 
